@@ -66,6 +66,7 @@ type VC struct {
 	counts    map[string]int
 	gvals     map[*ssa.Global]Term
 	nframes   int
+	closures  map[string]*closureInfo // function-value term -> the closure it was made from
 	Fatal     error
 	ModelVars []string
 	curProps  []string
@@ -79,6 +80,13 @@ type VC struct {
 }
 
 func Key(pkg, name string) string { return pkg + "::" + name }
+
+// closureInfo records the provenance of a function value created by MakeClosure
+// (or a plain function constant), so that a call through that very value is a static call.
+type closureInfo struct {
+	fn   *ssa.Function
+	free []Term
+}
 
 func FuncKey(fn *ssa.Function) string {
 	pkg := ""
